@@ -21,7 +21,7 @@ func init() {
 	add("C09", "a quarter of the runs close a side twice with different errors: the first close wins when the calls do not overlap",
 		"every statement of the pipe package is a scheduling point (lock-dropping changes)")
 	add("C10", "half of the encodings use bulk arguments that are slices of one buffer, which must be unchanged afterwards")
-	add("C11", "while mutants are judged the simulated allocator refuses single allocations above 4 MiB", "1 run in 4: two or three loaders at once under the scheduler; every payload must carry the CRC-64 of its own bytes")
+	add("C11", "while mutants are judged the simulated allocator refuses single allocations above 4 MiB", "1 run in 4: two or three loaders at once under the scheduler; every payload must carry the CRC-64 of its own bytes", "RDB files with 1-8 missing trailer bytes must be rejected")
 	add("C12", "a third of the runs first decode four damaged payloads with valid trailers (a rejected payload must leave nothing behind)")
 	add("C13", "a third of the runs: two sources, two DbSyncers in one process; every connection's commands are exactly one source's expected sequence")
 	add("C14", "1/6 of the runs let the real DbSyncer write the checkpoints (multi-db stream, killed mid-stream or after it) and the loader must return exactly the newest stored (offset, run id, db)",
